@@ -33,7 +33,7 @@ ASSUMPTIONS = ["float64 CPU, 1 thread", "scf_eps 1e-10 (SCF noise is 2-3 orders 
                "bitwise equality is demanded only between layouts that differ in padding coordinate values alone",
                "excited-state force comparison only when the active root is >= 0.05 eV from its neighbours"]
 REQUIRED_MONITORS = ["rows_compared", "padding_only_pairs", "swap_pairs", "cis_rows_compared", "md_rows_compared",
-                     "sp2_calls", "perm_layouts", "parser_calls_checked"]
+                     "sp2_calls", "perm_layouts", "parser_calls_checked", "equal_norb_batches"]
 # thorough tier: cases not started after this many seconds are skipped and reported (env override for smoke tests)
 BUDGET_S = {"thorough": float(__import__("os").environ.get("VERIF_C05_BUDGET", "1700"))}
 CASE_TIMEOUT = 900.0
@@ -116,6 +116,60 @@ def _sp_case(g, tier, method, conv, sp2, uhf, grad, n, maxperm, anion_ok=True):
         c["swap"] = {"member": k, "atoms": [a, b], "pad": int(g.integers(0, 3)),
                      "padval": PADVALS[int(g.integers(0, 4))], "seed": int(g.integers(0, 2**31))}
     return c
+
+
+def _split(name):
+    Z = gen.molecule(name)[0]
+    return (sum(1 for z in Z if z > 1), sum(1 for z in Z if z == 1))
+
+
+def _equal_norb_cases(g, tier):
+    """Named cells: batches whose members ALL have the same number of basis functions 4*nHeavy + nHydro but a different
+    heavy/hydrogen split (CH4|CO, C2H4|CO2, C2H6|HCOOH ...), so that any 'all molecules alike' fast path keyed on the
+    packed size instead of on (nHeavy, nHydro) is driven; plus triples with one member of another size, where the
+    equal-size pair is what remains active once the third molecule has converged.  Both orders are always run
+    (row 0 of such a batch is laid out correctly by construction)."""
+    groups = {8: (["CH4", "SiH4", "NH4+"], ["CO", "N2", "F2", "Cl2", "LiF", "NaCl", "NO+", "CN-"]),
+              12: (["C2H4", "CH3OH", "CH3SH"], ["CO2", "N2O", "SO2"]),
+              14: (["C2H6"], ["HCOOH"])}
+    rad8 = ["O2t", "NO."]
+    if tier == "quick":
+        plan = [("AM1", (2,), None, False, 8, None), ("PM3", (1,), None, False, 8, None), ("MNDO", (0, 0.3), None, False, 12, None),
+                ("AM1", (1,), None, True, 8, "radical"), ("PM3", (2,), None, False, 14, None), ("AM1", (2,), 1e-7, False, 8, None),
+                ("AM1", (0, 0.3), None, False, 8, "third"), ("PM6_SP", (1,), None, False, 8, None),
+                ("PM3", (0, 0.2), None, True, 12, None), ("MNDO", (2,), None, False, 12, "third")]
+    else:
+        plan = []
+        for method in ("AM1", "PM3", "MNDO", "PM6_SP"):
+            for conv, sp2 in (((0, 0.3), None), ((1,), None), ((2,), None), ((2,), 1e-7), ((1,), 1e-5)):
+                for norb in (8, 12, 14):
+                    plan.append((method, conv, sp2, False, norb, None))
+                plan.append((method, conv, sp2, False, 8, "third"))
+                plan.append((method, conv, sp2, False, 12, "third"))
+            for conv in ((0, 0.3), (1,)):
+                plan.append((method, conv, None, True, 8, "radical"))
+                plan.append((method, conv, None, True, 8, None))
+                plan.append((method, conv, None, True, 12, None))
+    out = []
+    for method, conv, sp2, uhf, norb, extra in plan:
+        a = [x for x in groups[norb][0] if gen.available(x, method)]
+        b = [x for x in groups[norb][1] if gen.available(x, method)]
+        if extra == "radical":
+            b = [x for x in rad8 if gen.available(x, method)]
+        if not a or not b:
+            continue
+        names = [a[int(g.integers(0, len(a)))], b[int(g.integers(0, len(b)))]]
+        if extra == "third":
+            others = [x for x in ("H2O", "NH3", "HCN", "C2H2", "HF") if gen.available(x, method)]
+            names.append(others[int(g.integers(0, len(others)))])
+        mem = [{"mol": n, "geom_seed": int(g.integers(0, 2**31))} for n in names]
+        lay, exh = _layouts(g, len(mem), tier, 6)
+        c = {"kind": "sp", "method": method, "conv": list(conv), "sp2": sp2, "uhf": uhf, "grad": "autodiff", "members": mem,
+             "layouts": lay, "perms_exhaustive": exh, "tag": "equal-norb",
+             "padfam": {"perm": [int(i) for i in g.permutation(len(mem))], "pad": int(g.integers(1, 4)),
+                        "seeds": [int(g.integers(0, 2**31)) for _ in range(2)]}}
+        out.append(c)
+    return out
 
 
 def gen_cases(tier, seed):
@@ -205,6 +259,8 @@ def gen_cases(tier, seed):
                                    {"perm": [1, 0], "pad": 1, "padval": "random", "seed": 2}],
                        "perms_exhaustive": True, "padfam": {"perm": [0, 1], "pad": 1, "seeds": [3, 4]}})
     sp.sort(key=lambda c: -len(c["layouts"]) * len(c["members"]))
+    # drawn last from a generator of their own, so that the cases above are unchanged by this addition
+    sp += _equal_norb_cases(gen.rng("C05", tier, "equal-norb"), tier)
     return sp[:3] + cases + sp[3:]
 
 
@@ -472,6 +528,13 @@ def _run_sp(case):
     base_cell = "%s/conv%s/sp2=%s/%s/%s" % (case["method"], "-".join(str(x) for x in case["conv"]), case.get("sp2"),
                                              "UHF" if case.get("uhf") else "RHF", case["grad"])
     acc.cells.add(base_cell)
+    if case.get("tag") == "equal-norb":
+        norbs = sorted({_norb(m["Z"], case["method"]) for m in mems})
+        splits = sorted({"%dheavy+%dH" % (sum(1 for z in m["Z"] if z > 1), sum(1 for z in m["Z"] if z == 1)) for m in mems})
+        acc.cells.add("equal-norb/norb=%s/%s/%s/conv%s/sp2=%s/%s" % ("|".join(map(str, norbs)), " vs ".join(splits), case["method"],
+                                                                "-".join(str(x) for x in case["conv"]), case.get("sp2"),
+                                                                "UHF" if case.get("uhf") else "RHF"))
+        acc.count("equal_norb_batches")
     acc.cells.add("members=%d" % len(mems))
     for m in mems:
         if m["q"] != 0:
